@@ -463,18 +463,60 @@ func coarse(sym string) string {
 
 // emits returns the (coarse) symbols f may perform, transitively through
 // library callees and its own function literals (MAY summary).
-func (c *Ctx) emits(f *Func) map[string]bool {
+func (c *Ctx) emits(f *Func) map[string]bool { return c.emitsMode(f, false) }
+
+// emitsSync is emits without spawn edges: bodies that only run in a goroutine
+// started by f (go statements) are not followed.
+func (c *Ctx) emitsSync(f *Func) map[string]bool { return c.emitsMode(f, true) }
+
+func (c *Ctx) emitsMode(f *Func, sync bool) map[string]bool {
 	if c.cache == nil {
 		c.cache = map[string]any{}
 	}
-	if m, ok := c.cache["emits:"+f.Key]; ok {
+	ck := "emits:"
+	if sync {
+		ck = "emitsSync:"
+	}
+	if m, ok := c.cache[ck+f.Key]; ok {
 		return m.(map[string]bool)
 	}
 	out := map[string]bool{}
-	c.cache["emits:"+f.Key] = out // cycle guard: partial result
+	c.cache[ck+f.Key] = out // cycle guard: partial result
+	goLits := map[*ast.FuncLit]bool{}
+	goCalls := map[*ast.CallExpr]bool{}
+	if sync {
+		for _, g := range c.P.Funcs {
+			if g.Body == nil {
+				continue
+			}
+			ast.Inspect(g.Body, func(n ast.Node) bool {
+				if gs, ok := n.(*ast.GoStmt); ok {
+					goCalls[gs.Call] = true
+					if lit, ok := ast.Unparen(gs.Call.Fun).(*ast.FuncLit); ok {
+						goLits[lit] = true
+					}
+					for _, a := range gs.Call.Args {
+						if lit, ok := ast.Unparen(a).(*ast.FuncLit); ok {
+							goLits[lit] = true
+						}
+					}
+				}
+				return true
+			})
+		}
+	}
 	var bodies []*Func
 	bodies = append(bodies, f)
 	for _, g := range c.P.Funcs {
+		skip := false
+		for p := g; p != nil && p != f; p = p.Parent {
+			if p.Lit != nil && goLits[p.Lit] {
+				skip = true
+			}
+		}
+		if skip {
+			continue
+		}
 		for p := g.Parent; p != nil; p = p.Parent {
 			if p == f {
 				bodies = append(bodies, g)
@@ -489,6 +531,9 @@ func (c *Ctx) emits(f *Func) map[string]bool {
 			case *ast.FuncLit:
 				return false
 			case *ast.CallExpr:
+				if goCalls[x] {
+					return false
+				}
 				ce := resolveCallee(g.Info(), x)
 				var args []Value
 				for _, a := range x.Args {
@@ -512,7 +557,7 @@ func (c *Ctx) emits(f *Func) map[string]bool {
 					if t == f {
 						continue
 					}
-					for s := range c.emits(t) {
+					for s := range c.emitsMode(t, sync) {
 						out[s] = true
 					}
 				}
